@@ -60,6 +60,15 @@ func VerifyNameErrorNSEC(msg *dns.Msg, nsecSet []dns.RR) error {
 	if covering == nil {
 		return ErrNSECMissingCoverage
 	}
+	// An NSEC whose next owner lies below qname does not deny qname: it
+	// shows that qname is an empty non-terminal, a name that exists
+	// (RFC 4035 §5.4, RFC 8020). Accepting it as a name error would let a
+	// NODATA answer for such a name be relabelled NXDOMAIN and cut the
+	// existing names below it off.
+	if cq, next := dns.CanonicalName(qname), dns.CanonicalName(covering.NextDomain); next != cq &&
+		dns.IsSubDomain(cq, next) {
+		return ErrNSECMissingCoverage
+	}
 
 	ce := closestEncloserFromNSEC(qname, covering)
 	if ce == "" {
